@@ -4,6 +4,7 @@ import GluonModel.StdList
 import GluonModel.StdString
 import GluonModel.StdDerive
 import GluonModel.StdJson
+import GluonModel.StdJsonText
 open GluonModel
 
 namespace C19Driver
@@ -151,6 +152,64 @@ partial def parseVal : Sexp → Option Val
       | _ => none)).map Val.record
   | _ => none
 
+/-! JSON text layer (`GluonModel.StdJsonText`).
+    value encoding: `n` `t` `f` `(i N)` `(d BITS)` `(s "…")` `(a V…)` `(o M)` with the std.map tree
+    `M ::= _ | (b "key" V M M)`, or `(oi ("key" V)…)` = `std.map.insert` of the pairs, in order, into
+    `empty`. -/
+open StdJsonText in
+mutual
+partial def parseJ : Sexp → Option JVal
+  | .atom "n" => some .null
+  | .atom "t" => some (.bool true)
+  | .atom "f" => some (.bool false)
+  | .list [.atom "i", n] => n.toInt?.map .int
+  | .list [.atom "d", n] => n.toNat?.map .float
+  | .list [.atom "s", .str s] => some (.str s.toList)
+  | .list (.atom "a" :: xs) => (xs.mapM parseJ).map .arr
+  | .list [.atom "o", m] => (parseJM m).map .obj
+  | .list (.atom "oi" :: kvs) =>
+    (kvs.mapM (fun kv => match kv with
+      | Sexp.list [Sexp.str k, v] => (parseJ v).map (fun v => (k.toList, v))
+      | _ => none)).map (fun (es : List (Str × JVal)) =>
+        JVal.obj (es.foldl (fun (m : StdMap.Map Str JVal) (e : Str × JVal) =>
+          StdMap.insert scmp e.1 e.2 m) StdMap.Map.tip))
+  | _ => none
+partial def parseJM : Sexp → Option (StdMap.Map Str JVal)
+  | .atom "_" => some .tip
+  | .list [.atom "b", .str k, v, l, r] =>
+    match parseJ v, parseJM l, parseJM r with
+    | some v, some l, some r => some (.bin k.toList v l r)
+    | _, _, _ => none
+  | _ => none
+end
+
+open StdJsonText in
+mutual
+partial def renderJ : JVal → String
+  | .null => "n"
+  | .bool true => "t"
+  | .bool false => "f"
+  | .int i => "(i " ++ toString i ++ ")"
+  | .float b => "(d " ++ toString b ++ ")"
+  | .str s => "(s " ++ Sexp.quote (String.ofList s) ++ ")"
+  | .arr xs => "(a" ++ String.join (xs.map (fun x => " " ++ renderJ x)) ++ ")"
+  | .obj m => "(o " ++ renderJM m ++ ")"
+partial def renderJM : StdMap.Map StdJsonText.Str JVal → String
+  | .tip => "_"
+  | .bin k v l r =>
+    "(b " ++ Sexp.quote (String.ofList k) ++ " " ++ renderJ v ++ " " ++ renderJM l ++ " " ++ renderJM r ++ ")"
+end
+
+def handleJser (v : Sexp) : String :=
+  match parseJ v with
+  | some v => Sexp.quote (String.ofList (StdJsonText.ser v))
+  | none => "bad-request"
+
+def handleJde (s : String) : String :=
+  match StdJsonText.de s.toList with
+  | .ok v => "(ok " ++ renderJ v ++ ")"
+  | .error e => "(err " ++ Sexp.quote e.msg ++ ")"
+
 def handle : List Sexp → String
   | .atom "map" :: ops =>
     match ints ops with
@@ -187,6 +246,8 @@ def handle : List Sexp → String
         ++ (if StdDerive.eqVal x y then "T" else "F") ++ ")"
     | _, _ => "bad-request"
   | .atom "json" :: rest => StdJson.handleJson rest
+  | [.atom "jser", v] => handleJser v
+  | [.atom "jde", .str s] => handleJde s
   | _ => "bad-request"
 
 end C19Driver
